@@ -62,6 +62,25 @@ def run(tier):
     for _ in range(n):
         v = G.gen_value(rng, "core", depth=rng.choice([1, 2, 3, 4]), width=4)
         docs.append(G.render_doc(rng, v, "core", rich=True))
+    # core number tokens in every shape the per-flag number code paths distinguish: digit counts around every accumulator / fast-path limit
+    # (15..19, 20, 40 significant digits), leading zeros after the point, exponents at the fast-path edges, integers at the 2^63 edge, N / M
+    # suffixes, long tokens (the flags change which path converts them; the value must not change)
+    for sg in ("", "-", "+"):
+        for lz in (0, 1, 2, 5, 17, 18, 19, 20, 25, 40):
+            for nd in (1, 2, 14, 15, 16, 17, 18, 19, 20, 21, 25, 40):
+                digs = "".join(str((7 * i + 1) % 10) for i in range(nd))
+                for tail in ("", "0", "000"):
+                    frac = "0." + "0" * lz + digs.rstrip("0") + "5" + tail
+                    docs.append((sg + frac).encode())
+                    docs.append(("[" + sg + frac + "e" + str(lz) + " " + sg + frac + "E-3 :k]").encode())
+                docs.append((sg + (digs.lstrip("0") or "1") + "." + "0" * lz + "25").encode())
+    for e in (-25, -23, -22, -21, -1, 0, 1, 21, 22, 23, 25, 37, 300, 308, 309, -308, -324, -325):
+        for m in ("1", "9007199254740993", "123456789012345678", "1234567890123456789", "0.000000000000000000123", "4.9", "1.7976931348623157"):
+            docs.append(("%se%d" % (m, e)).encode())
+    for t in ("9223372036854775807", "9223372036854775808", "-9223372036854775808", "-9223372036854775809", "123456789012345678901234567890", "0", "-0", "+0", "7N", "0N", "-12N",
+              "1.5M", "0.5M", "-0.25M", "0M", "1e3M", "12345678901234567890.12345678901234567890M", "3" * 600, "3" * 600 + ".5", "0." + "1" * 600, "1e0000000000000000005"):
+        docs.append(t.encode())
+        docs.append(("{:a " + t + " :b [" + t + "]}").encode())
     ngen = len(docs)
     for d in list(docs[:n // 3]):
         docs.extend(c for c, _, _ in G.corruptions(rng, d, "core", limit=3))
